@@ -594,6 +594,53 @@ func (la *LockAn) LockOrder() []OrderEdge {
 	return out
 }
 
+// LockOrderThroughCalls adds to LockOrder the acquisitions made by a function of the package that is called in place
+// (one level) while the caller holds a lock: caller-held (must or may) → every lock the callee acquires itself.
+func (la *LockAn) LockOrderThroughCalls() []OrderEdge {
+	out := la.LockOrder()
+	direct := map[*ssa.Function][]string{}
+	for _, fn := range la.Funcs {
+		for _, cl := range rawCallsIn(fn) {
+			if _, isCall := cl.(*ssa.Call); !isCall {
+				continue
+			}
+			if op, ok := la.opOf(cl); ok && (op.mode == 'W' || op.mode == 'R') {
+				direct[fn] = append(direct[fn], op.id)
+			}
+		}
+	}
+	for _, fn := range la.Funcs {
+		for _, cl := range rawCallsIn(fn) {
+			call, isCall := cl.(*ssa.Call)
+			if !isCall {
+				continue
+			}
+			if _, isOp := la.opOf(cl); isOp {
+				continue
+			}
+			cal := CalleeFn(call.Common())
+			if cal == nil || len(direct[cal]) == 0 || cal == fn {
+				continue
+			}
+			held := LockSet{}
+			for k, m := range la.Held(call) {
+				held[k] = m
+			}
+			for k, m := range la.MayHoldAt(call) {
+				held[k] = m
+			}
+			for h := range held {
+				for _, to := range direct[cal] {
+					if h != to {
+						out = append(out, OrderEdge{h, to, call})
+					}
+				}
+			}
+		}
+	}
+	return out
+}
+
 // OrderConflicts returns pairs of edges A→B, B→A.
 func OrderConflicts(es []OrderEdge) [][2]OrderEdge {
 	var out [][2]OrderEdge
